@@ -245,6 +245,47 @@ def run(rep, repo, tier):
                         [str(v) for v in sorted(got.vals)[:6]]),
                     instance=cfg, observed="range() = %s" % [
                         str(v) for v in vals])
+  # a constant PER-CHANNEL scale (alpha given as an array): min() / max()
+  # enclose the outputs of every channel, whichever channel comes first
+  from ..pe import NArr
+  for alphas in ((F(1, 2), F(1), F(2)), (F(2), F(1), F(1, 2))):
+    for bits, integer, kn in ((4, 0, True), (4, 1, False)):
+      kw = dict(bits=bits, integer=integer, keep_negative=kn,
+                alpha=NArr(list(alphas)))
+      cfg = "quantized_linear(%s)" % oracle.show_kwargs(kw)
+      try:
+        pe, obj = quant.construct(repo, "quantized_linear", kw,
+                                  x_shape=(5, 3))
+      except (PyRaise, ConfigRejected):
+        continue
+      try:
+        mn = quant.call_method((pe, obj), "min")
+        mx = quant.call_method((pe, obj), "max")
+      except (PyRaise, ConfigRejected) as e:
+        rep.check(False, "R2", "%s::quantized_linear.min/max" % mod.relpath,
+                  "reporter-raises", "%s: min() / max() raise %s" % (cfg, e),
+                  instance=cfg)
+        continue
+      step = F(2) ** (integer - bits + int(kn))
+      top = (2 ** (bits - int(kn)) - 1) * step
+      low = -top if kn else F(0)      # (symmetric by default)
+
+      def per_channel(v, i):
+        if isinstance(v, (list, tuple)):
+          return F(v[i]) if i < len(v) else None
+        if isinstance(v, Tensor):
+          c = Fwd()(v.term).const_value()
+          return c
+        return F(v)
+      bad = []
+      for i, a in enumerate(alphas):
+        gx, gn = per_channel(mx, i), per_channel(mn, i)
+        if gx is None or gn is None or gx < top * a or gn > low * a:
+          bad.append("channel %d (alpha %s): outputs in [%s, %s], min() / "
+                     "max() give [%s, %s]" % (i, a, low * a, top * a, gn, gx))
+      rep.check(not bad, "R2", "%s::quantized_linear.min/max" % mod.relpath,
+                "per-channel-scale-not-enclosed",
+                "%s: %s" % (cfg, "; ".join(bad)), instance=cfg)
   # the same for the options every fixed-point quantizer reads at call time
   # (C09 R8): after bits / integer were reassigned the reporters follow
   for cls, kw0, changes in (
